@@ -203,10 +203,34 @@ func c16Run(c *mon.Ctx, unit int) {
 		default:
 			s = gen.Everything(r, gen.EverythingOpts{MaxDepth: r.Range(1, 4), MaxWidth: 4}).S
 		}
+		// false-valued rules are part of the text too: insert some (they are inert for validation,
+		// not for the AST)
+		if k%3 == 0 {
+			s.Root.Walk(func(n *model.Node) {
+				if !n.IsScalar() || !r.Chance(1, 3) {
+					return
+				}
+				if vs := gen.FalseRuleVariants(n); len(vs) > 0 {
+					n.Rules = mon.Pick(r, vs).Rules
+				}
+			})
+		}
 		// all styles that do not change meaning (rule order is kept: the AST lists rules as written)
 		st := model.Style{}
 		if k%2 == 1 {
 			st = c13Random(r).Style
+		}
+		if k%8 == 5 {
+			// one-line spelling with note-only annotations on any node (several nodes per line)
+			s = &model.Schema{Root: gen.Shape(r, gen.ShapeOpts{MaxDepth: 3, MaxWidth: 3})}
+			s.Root.Walk(func(n *model.Node) {
+				n.Rules = nil
+				n.Note = ""
+				if r.Chance(1, 2) {
+					n.Note = mon.Pick(r, []string{"first", "the id", "x y z", "note 2"})
+				}
+			})
+			st = model.Style{OneLine: true}
 		}
 		sp := specOf(s, st)
 		got, o := c16Observe(sp)
